@@ -3,8 +3,11 @@
 package executor
 
 import (
+	"encoding/json"
 	"math/big"
 
+	"github.com/meshplus/bitxhub-core/governance"
+	servicemgr "github.com/meshplus/bitxhub-core/service-mgr"
 	"github.com/meshplus/bitxhub-model/constant"
 	"github.com/meshplus/bitxhub-model/pb"
 	"github.com/meshplus/bitxhub/internal/executor/contracts"
@@ -60,15 +63,26 @@ func zzTimeoutPipeline() {
 	exec.ibtpVerify = &zzStubVerify{verdict: make([]uint8, 8), seen: make([]int, 8)}
 	exec.config.ProofType = "serial"
 	zzInterchainWorld(exec)
+	// the destination service may be unusable when the request arrives: it then starts at BEGIN_FAILURE,
+	// never times out (although it carries a timeout height) and only goes to FAILURE by a failure receipt
+	dstUsable := zz.Choice("destinationUsable", 2) == 1
+	if !dstUsable {
+		exec.ledger.SetState(constant.ServiceMgrContractAddr.Address(), []byte(servicemgr.ServiceKey("chB:sB")), zzServiceJSON("chB", "sB", "serviceB", governance.GovernanceFrozen, map[string]struct{}{}), nil)
+		acc, root := exec.ledger.FlushDirtyData()
+		_ = exec.ledger.StateLedger.Commit(0, acc, root)
+	}
 	T := int64(1 + zz.Choice("timeout", zz.Tier(2, 3)))
 	req := zzRequestTx(1, 0, 0)
 	req.IBTP.TimeoutHeight = T
 	exec.processExecuteEvent(zzBlockOf(1, []pb.Transaction{req}))
 	id := zzSrcFullID() + "-1356:chB:sB-1"
 	st, ok := zzStatusOf(exec, id)
-	zz.Assert("C06.pipe.request-accepted", ok && st == pb.TransactionStatus_BEGIN)
-	expiry := uint64(1 + T)
 	model := pb.TransactionStatus_BEGIN
+	if !dstUsable {
+		model = pb.TransactionStatus_BEGIN_FAILURE
+	}
+	zz.Assert("C06.pipe.request-accepted", ok && st == model)
+	expiry := uint64(1 + T)
 	nonce := uint64(0)
 	for h := uint64(2); h <= expiry+1; h++ {
 		var txs []pb.Transaction
@@ -95,6 +109,8 @@ func zzTimeoutPipeline() {
 				model = pb.TransactionStatus_FAILURE
 			case model == pb.TransactionStatus_BEGIN_ROLLBACK && (typ == pb.IBTP_RECEIPT_ROLLBACK || typ == pb.IBTP_RECEIPT_FAILURE):
 				model = pb.TransactionStatus_ROLLBACK
+			case model == pb.TransactionStatus_BEGIN_FAILURE && typ == pb.IBTP_RECEIPT_FAILURE:
+				model = pb.TransactionStatus_FAILURE
 			}
 		}
 		expired := false
@@ -115,4 +131,58 @@ func zzTimeoutPipeline() {
 		zz.Cover("C06.pipe.receipt-in-expiry-block", h == expiry && kind != 0 && !expired)
 	}
 	_ = contracts.TxInfoKey
+}
+
+// ZZH_C05_shared_timeout: two one-to-many groups of the same source chain begin in block 1 with the
+// same timeout (real TransactionManager.BeginMultiTXs through the real BoltVM dispatch), so they
+// share one entry list for the expiry block. Before it neither, the first or the second of them finishes
+// (its only child reports success or failure). Then the expiry block 1+T runs through the real
+// processExecuteEvent: a group that finished is not touched and not listed; every group that did
+// not finish is moved to BEGIN_ROLLBACK with its child and listed once for the source chain -
+// wherever it stood in the shared list.
+// zz:also C06
+func ZZH_C05_shared_timeout() {
+	exec := zzNewExec(1, big.NewInt(0))
+	exec.ibtpVerify = &zzStubVerify{verdict: make([]uint8, 1), seen: make([]int, 1)}
+	T := uint64(1) // (the groups begin while block 0 is the head, so the expiry block is the first block of the chain)
+	gids := []string{"0xGROUPONE", "0xGROUPTWO"}
+	kids := []string{"1356:chA:s1-1356:chB:s2-1", "1356:chA:s1-1356:chC:s3-1"}
+	for i := range gids {
+		_, err := zzTMInvoke(exec, 0, "BeginMultiTXs", pb.String(gids[i]), pb.String(kids[i]), pb.Uint64(T), pb.Bool(false), pb.Uint64(1))
+		zz.Assert("C05.shared.begin", err == nil)
+	}
+	finished := zz.Choice("finishes", 3) - 1 // -1 none, 0 the first, 1 the second
+	result := int32(1 + zz.Choice("result", 2)) // the child's receipt: IBTP_RECEIPT_SUCCESS or IBTP_RECEIPT_FAILURE
+	if finished >= 0 {
+		_, err := zzTMInvoke(exec, 0, "Report", pb.String(kids[finished]), pb.Int32(result))
+		zz.Assert("C05.shared.report", err == nil)
+	}
+	acc, root := exec.ledger.FlushDirtyData()
+	_ = exec.ledger.StateLedger.Commit(0, acc, root)
+	statusOf := func(g string) pb.TransactionStatus {
+		var info contracts.TransactionInfo
+		ok, v := exec.ledger.GetState(constant.TransactionMgrContractAddr.Address(), []byte(contracts.GlobalTxInfoKey(g)))
+		zz.Assert("C05.shared.info", ok && json.Unmarshal(v, &info) == nil)
+		return info.GlobalState
+	}
+	var before [2]pb.TransactionStatus
+	for i, g := range gids {
+		before[i] = statusOf(g)
+	}
+	crashed, _ := zz.Crashed(func() { exec.processExecuteEvent(zzBlockOf(T, nil)) })
+	zz.Assert("C08.block-executes", !crashed)
+	if crashed {
+		return
+	}
+	im, err := exec.ledger.GetInterchainMeta(T)
+	zz.Assert("C05.shared.meta", err == nil)
+	for i, g := range gids {
+		if i == finished {
+			zz.Assert("C05.shared.finished-group-untouched", statusOf(g) == before[i])
+			zz.Assert("C06.shared.finished-group-not-listed", zzTimedOut(im, "chA", kids[i]) == 0)
+		} else {
+			zz.Assert("C05.shared.unfinished-group-rolled-back", statusOf(g) == pb.TransactionStatus_BEGIN_ROLLBACK)
+			zz.Assert("C06.shared.unfinished-group-listed-once", zzTimedOut(im, "chA", kids[i]) == 1)
+		}
+	}
 }
